@@ -2,6 +2,7 @@ package parser
 
 import (
 	"fmt"
+	"math"
 	"strconv"
 	"strings"
 
@@ -49,7 +50,7 @@ func (v *PacketDslVisitorImpl) metaDataDeclarationToMetaData(ctx *gen.MetaDataDe
 		}
 	} else if ctx.Type_().FixedString() != nil {
 		size, err := strconv.Atoi(ctx.Type_().FixedString().DIGITS().GetText())
-		if err != nil {
+		if err != nil || size > math.MaxInt32 {
 			v.BinModel.AddSyntaxError(&model.SyntaxError{
 				Line:   ctx.GetStart().GetLine(),
 				Column: ctx.GetStart().GetColumn(),
@@ -505,7 +506,7 @@ func (v *PacketDslVisitorImpl) metaDataDeclarationToField(ctx *gen.MetaDataDecla
 		}
 	} else if ctx.Type_().FixedString() != nil {
 		size, err := strconv.Atoi(ctx.Type_().FixedString().DIGITS().GetText())
-		if err != nil {
+		if err != nil || size > math.MaxInt32 {
 			v.BinModel.AddSyntaxError(&model.SyntaxError{
 				Line:   ctx.GetStart().GetLine(),
 				Column: ctx.GetStart().GetColumn(),
